@@ -117,7 +117,13 @@ def D19():
     return out == '**akern\n*clefG2\n4#\n*-\n', repr(out)
 
 
-ALL = ['D13', 'D19', 'D1', 'D2', 'D3', 'D4', 'D5', 'D6', 'D8', 'D9', 'D10', 'D11', 'D12', 'D17']
+def D21():
+    d, e = kp.loads('**kern\t**text\n4c\ta\x85b\n4d\tc\u2028d\n*-\t*-\n')
+    shape = [len(s) for s in d.tree.stages]
+    return shape == [1, 2, 2, 2, 2], str(shape)
+
+
+ALL = ['D21', 'D13', 'D19', 'D1', 'D2', 'D3', 'D4', 'D5', 'D6', 'D8', 'D9', 'D10', 'D11', 'D12', 'D17']
 
 if __name__ == '__main__':
     names = sys.argv[1:] or ALL
